@@ -160,6 +160,14 @@ INFO = {
              "rendered bytes) and any race report is a violation.",
         note="Schedules are forced at the ContainerLogs boundary; finer interleavings only as observed by -race.",
         ref="6/C18"),
+    "C05": dict(
+        text="TLC enumerates query ASTs per syntactic position (every stage kind, every aggregation, literals of every kind) and checks "
+             "the static rules on them; each AST is written as text under six layouts and with each forbidden mutation, logql.Parse is run "
+             "and TLC validates that a valid text is accepted with exactly the denoted structure (operators, literals after unquoting, "
+             "durations, byte sizes, parameters, grouping, range, offset, unwrap) and that a mutated text is rejected; random generators "
+             "add arbitrary pipelines and metric expressions under random layouts.",
+        note="The text is produced by the harness from the AST; grammar coverage is that of the pools (no on/ignoring, label_replace, ip()).",
+        ref="6/C05"),
 }
 
 NOT_YET = "no check registered yet in this revision (machinery under construction; see DESIGN.md section 6 for the planned model)"
